@@ -56,8 +56,14 @@ def history_lines(ctx):
 
 def run(ctx):
     cov = ctx.coverage
+    meta, xerr = vlib.regen_extracted("C05")
     r = vlib.proof_stage(ctx)
+    if xerr:
+        r["ok"] = False
+        r["failures"].append("fact extraction from packfile.rs / check.rs failed: " + xerr)
+    cov["extracted_facts"] = meta
     cov["trusted_base"] += [
+        "props/C05/extract.py (pack-format constants and shape facts of check.rs regenerated into Extracted.v)",
         "crates/core/src/verif_hooks/c05.rs (decrypt with the repository key, PackHeader::from_binary, header size, save_file of an edited IndexFile)",
         "harness/src/bin/c05.rs: fault injection on a clone of the store, the reference restore, the byte comparison, and dump_state (abstraction of a damaged store into the model's vocabulary)"]
     ctx.assumptions += [
